@@ -315,6 +315,9 @@ var roleSpecs = []roleSpec{
 	{"Container.doNotRecover", func(p *Program) types.Object {
 		return p.fieldTouchedBy("(*Container).DoNotRecover", "store", fieldOfType("bool"))
 	}},
+	{"Container.isRegisteredOnRoot", func(p *Program) types.Object {
+		return p.fieldTouchedBy("(*Container).Add", "store", fieldOfType("bool"))
+	}},
 	{"Container.contentEncodingEnabled", func(p *Program) types.Object {
 		return p.fieldTouchedBy("(*Container).EnableContentEncoding", "store", fieldOfType("bool"))
 	}},
